@@ -10,19 +10,21 @@ KT = {
     'uint64_t': dict(KEY='uint64_t', KEY_U='unsigned long', KEY_BITS=64, KEY_SIGNED=0),
     'int64_t': dict(KEY='int64_t', KEY_U='unsigned long', KEY_BITS=64, KEY_SIGNED=1),
 }
+Q = ('quick', 'thorough')
+T = ('thorough',)
 
 
-def e2e(name, kt, n, eps, epsrec, flt='float', tiers=('quick', 'thorough'), timeout=900, unwind=None, extra=None):
+def e2e(name, kt, n, eps, epsrec, flt='float', tiers=Q, timeout=900, extra=None):
     d = dict(KT[kt]); d.update(N=n, NMIN=n, EPS=eps, EPSREC=epsrec, FLT=flt, VERIF_VEC_CAP=n + 4)
     if extra: d.update(extra)
-    return dict(name=name, unit='pgm_e2e.cpp', harness='h_pgm_e2e.c', defs=d, cbmc_extra=['--no-array-field-sensitivity'],  narrow=16 if KT[kt]['KEY_BITS'] == 8 else 0,
-                timeout=timeout, tiers=tiers,
-                bounds='exactly n = %d keys of %s (all values except the reserved maximum), every query value except the reserved one, Epsilon=%d, '
-                       'EpsilonRecursive=%d, %s slopes; sequential construction; loops unwound %d times with unwinding assertions'
-                       % (n, kt, eps, epsrec, flt, unwind or n + 3))
+    return dict(name=name, unit='pgm_e2e.cpp', harness='h_pgm_e2e.c', defs=d, cbmc_extra=['--no-array-field-sensitivity'],
+                narrow=16 if KT[kt]['KEY_BITS'] == 8 else 0, timeout=timeout, tiers=tiers,
+                bounds='exactly n = %d keys of %s (all values except the reserved maximum%s), every query value except the reserved one, Epsilon=%d, '
+                       'EpsilonRecursive=%d, %s slopes; sequential construction; every loop bound checked by an unwinding assertion'
+                       % (n, kt, '; the reserved value allowed as last key -> rejection path' if extra and 'ALLOW_SENTINEL' in extra else '', eps, epsrec, flt))
 
 
-def pla(name, k, epsfix=None, epsmax=2, ymax=12, xmax=255, maximality=True, tiers=('quick', 'thorough'), timeout=900):
+def pla(name, k, epsfix=None, epsmax=2, ymax=12, xmax=255, maximality=True, tiers=Q, timeout=900):
     d = dict(KT['uint8_t']); d.update(NPTS=k, EPSMAX=epsmax, YMAX=ymax, XMAX=xmax, VERIF_VEC_CAP=k + 2)
     if epsfix is not None: d.update(EPSFIX=epsfix, EPSMAX=epsfix)
     if not maximality: d.update(NO_MAXIMALITY=1)
@@ -32,31 +34,73 @@ def pla(name, k, epsfix=None, epsmax=2, ymax=12, xmax=255, maximality=True, tier
                           'fit of every accepted point + maximality (exact feasibility oracle)' if maximality else 'fit of every accepted point (no maximality oracle)'))
 
 
-JOBS = {
-    'C01': [
-        e2e('e2e_u8_n1_e1_r1', 'uint8_t', 1, 1, 1),
-        e2e('e2e_u8_n2_e1_r1', 'uint8_t', 2, 1, 1),
-        e2e('e2e_u8_n2_e1_r0', 'uint8_t', 2, 1, 0),
-        e2e('e2e_u8_n3_e1_r1', 'uint8_t', 3, 1, 1),
-        e2e('e2e_u8_n3_e1_r0', 'uint8_t', 3, 1, 0),
-        e2e('e2e_u8_n4_e1_r0', 'uint8_t', 4, 1, 0, tiers=('thorough',), timeout=3000),
-        e2e('e2e_u8_n5_e1_r0', 'uint8_t', 5, 1, 0, tiers=('thorough',), timeout=3400),
-    ],
-}
+def mkseg(name, nk, eps, chunks=1, xmax=254, tiers=Q, timeout=900):
+    d = dict(KT['uint8_t']); d.update(NK=nk, EPSFIX=eps, CHUNKS=chunks, XMAX=xmax, YMAXCHK=nk, MAXSEG=8, VERIF_VEC_CAP=nk + 4, VERIF_VECVEC_CAP=max(chunks, 2))
+    return dict(name=name, unit='pla.cpp', harness='h_mkseg.c', defs=d, narrow=16, timeout=timeout, tiers=tiers,
+                bounds='sorted arrays of exactly %d uint8_t keys in 0..%d (duplicates allowed), epsilon=%d, %s'
+                       % (nk, xmax, eps, 'sequential driver' if chunks <= 1 else 'chunked driver with %d chunks (hook H1: real chunk loop run sequentially)' % chunks))
 
+
+def mapped(name, kt, n, eps=1, epsrec=1, ord_hi=None, tiers=Q, timeout=900):
+    d = dict(KT[kt]); d.update(N=n, EPS=eps, EPSREC=epsrec, FLT='float', VERIF_VEC_CAP=n + 4)
+    if ord_hi is not None: d.update(ORD_HI=ord_hi)
+    return dict(name=name, unit='mapped.cpp', harness='h_mapped.c', defs=d, narrow=16 if KT[kt]['KEY_BITS'] == 8 else 0, timeout=timeout, tiers=tiers,
+                cbmc_extra=['--no-array-field-sensitivity'],
+                bounds='exactly %d sorted %s keys%s, every duplicate structure, every query except the reserved value, Epsilon=%d, EpsilonRecursive=%d; '
+                       'file/mmap layer replaced by a pointer to the array (accessor hook)' % (n, kt, '' if ord_hi is None else ' with ordinals 0..%d' % ord_hi, eps, epsrec))
+
+
+def md(name, mode, npts, cmax, eps=1, epsrec=1, exact=True, tiers=Q, timeout=900, miss=1):
+    d = dict(CT='uint32_t', CT_U='unsigned int', MAXPTS=npts, NPTS_MIN=npts if exact else 1, CMAX=cmax, MODE=mode, EPS=eps, EPSREC=epsrec,
+             VERIF_VEC_CAP=npts + 4, PGM_INDEX_VERIF_MISS_THRESHOLD=miss)
+    return dict(name=name, unit='multidim.cpp', harness='h_md.c', defs=d, narrow=16, timeout=timeout, tiers=tiers,
+                bounds='%s %d points in 2 dimensions, coordinates 0..%d (uint32 Morton codes), duplicates allowed, Epsilon=%d, EpsilonRecursive=%d, '
+                       'miss_threshold=%d (hook) so that the bigmin skip path runs at this size; %s'
+                       % ('exactly' if exact else 'up to', npts, cmax, eps, epsrec, miss, 'every query point' if mode == 0 else 'every box with min <= max'))
+
+
+def dyn(name, nbulk, nops, kmax=5, vmax=3, base=2, bufl=1, idxl=2, eps=1, epsrec=1, tiers=Q, timeout=900):
+    d = dict(NBULK=nbulk, MAXBULK=max(nbulk, 1), NOPS=nops, KMAX=kmax, VMAX=vmax, BASE=base, BUFL=bufl, IDXL=idxl, EPS=eps, EPSREC=epsrec,
+             MAXOUT=kmax + 1, VERIF_VEC_CAP=max(nbulk + nops + 4, 10), VERIF_VECVEC_CAP=32, VERIF_SET_CAP=kmax + 2)
+    return dict(name=name, unit='dyn.cpp', harness='h_dyn.c', defs=d, narrow=16, timeout=timeout, tiers=tiers,
+                bounds='bulk-load of %d sorted pairs then every history of %d insert_or_assign/erase operations over keys 0..%d and values 0..%d; '
+                       'base=%d, buffer_level=%d (buffer of %d), index_level=%d (levels >= %d carry a PGM-index with Epsilon=%d); all queries afterwards'
+                       % (nbulk, nops, kmax, vmax, base, bufl, sum(base ** i for i in range(bufl + 1)), idxl, max(idxl, bufl + 1), eps))
+
+
+def cpgm(name, kt, ctype, n, epslo=1, ephi=3, spread=200, sentinel=False, tiers=Q, timeout=900):
+    d = dict(KT[kt]); d.update(CTYPE=ctype, N=n, EPSLO=epslo, EPSHI=ephi, SPREAD=spread, VERIF_VEC_CAP=n + 4, VERIF_SET_CAP=4)
+    if sentinel: d.update(ALLOW_SENTINEL=1)
+    return dict(name=name, unit='c_iface.cpp', harness='h_cpgm.c', defs=d, narrow=16, roots=['@u_cpgm'], timeout=timeout, tiers=tiers,
+                cbmc_extra=['--no-array-field-sensitivity'],
+                bounds='pgm_index_%s_{create,search,destroy}: exactly %d sorted keys = symbolic base (anywhere in the %s range) + offsets 0..%d, run-time epsilon '
+                       'symbolic in %d..%d, queries base+0..%d%s' % (ctype, n, kt, spread, epslo, ephi, spread, '; reserved value allowed in the data (NULL path)' if sentinel else ''))
+
+
+JOBS = {}
+JOBS['C01'] = [
+    e2e('e2e_u8_n1_e1_r1', 'uint8_t', 1, 1, 1),
+    e2e('e2e_u8_n2_e1_r1', 'uint8_t', 2, 1, 1),
+    e2e('e2e_u8_n2_e1_r0', 'uint8_t', 2, 1, 0),
+    e2e('e2e_u8_n3_e1_r1', 'uint8_t', 3, 1, 1),
+    e2e('e2e_u8_n3_e1_r0', 'uint8_t', 3, 1, 0),
+    e2e('e2e_u8_n4_e1_r0', 'uint8_t', 4, 1, 0, tiers=T, timeout=3000),
+]
 JOBS['C03'] = [pla('pla_fit_k3_e%d' % e, 3, epsfix=e, maximality=False) for e in (0, 1, 2)] + [pla('pla_fit_k4_e1', 4, epsfix=1, maximality=False)]
-JOBS['C04'] = [pla('pla_max_k3_e%d_x15' % e, 3, epsfix=e, xmax=15, ymax=6) for e in (0, 1)] + [pla('pla_max_k3_e1_x63', 3, epsfix=1, xmax=63, ymax=6, tiers=('thorough',), timeout=3000)]
-
+JOBS['C03'] += [mkseg('mkseg_n3_e1', 3, 1), mkseg('mkseg_n4_e1_c2', 4, 1, chunks=2)]
+JOBS['C04'] = [pla('pla_max_k3_e%d_x15' % e, 3, epsfix=e, xmax=15, ymax=6) for e in (0, 1)] + \
+              [pla('pla_max_k3_e1_x63', 3, epsfix=1, xmax=63, ymax=6, tiers=T, timeout=3000)]
 JOBS['C14'] = [md('md_contains_n1', 0, 1, 3), md('md_contains_n2', 0, 2, 3)]
-JOBS['C13'] = [md('md_range_n1', 1, 1, 3), md('md_range_n2', 1, 2, 3)]
-
+JOBS['C13'] = [md('md_range_n1', 1, 1, 3), md('md_range_n2', 1, 2, 3), md('md_range_n3_skip', 1, 3, 3, miss=0), md('md_range_n4_skip', 1, 4, 3, miss=0, tiers=T, timeout=3000)]
 JOBS['C05'] = [dyn('dyn_b0_o2', 0, 2), dyn('dyn_b0_o3', 0, 3), dyn('dyn_noidx_b0_o4', 0, 4, idxl=10), dyn('dyn_noidx_b2_o2', 2, 2, idxl=10)]
+JOBS['C11'] = [mapped('mapped_u8_n2', 'uint8_t', 2), mapped('mapped_i8_n3', 'int8_t', 3), mapped('mapped_u8_n3_dense', 'uint8_t', 3, ord_hi=3)]
 
-PROPS = {
-    'C05': dict(level='model_checking', explanation='', outside=[], assumptions=[]),
-    'C13': dict(level='model_checking', explanation='', outside=[], assumptions=[]),
-    'C14': dict(level='model_checking', explanation='', outside=[], assumptions=[]),
-    'C03': dict(level='model_checking', explanation='', outside=[], assumptions=[]),
-    'C04': dict(level='model_checking', explanation='', outside=[], assumptions=[]),
-    'C01': dict(level='model_checking', explanation='', outside=[], assumptions=[]),
-}
+JOBS['C02'] = JOBS['C01']
+JOBS['C07'] = [e2e('e2e_u8_n3_e1_r1', 'uint8_t', 3, 1, 1), e2e('e2e_i8_n2_e1_r1', 'int8_t', 2, 1, 1), e2e('e2e_u8_n4_e1_r1', 'uint8_t', 4, 1, 1, tiers=T, timeout=3000)]
+JOBS['C16'] = [e2e('frame_u8_n2_e1_r1', 'uint8_t', 2, 1, 1, extra=dict(WITH_FRAME=1)), e2e('frame_u8_n3_e1_r0', 'uint8_t', 3, 1, 0, extra=dict(WITH_FRAME=1))]
+JOBS['C20'] = [e2e('reject_u8_n%d' % n, 'uint8_t', n, 1, 1, extra=dict(ALLOW_SENTINEL=1)) for n in (1, 2)] + \
+              [e2e('reject_i8_n2', 'int8_t', 2, 1, 0, extra=dict(ALLOW_SENTINEL=1))]
+JOBS['C18'] = [cpgm('cpgm_u32_n2', 'uint32_t', 'uint32', 2), cpgm('cpgm_i32_n2', 'int32_t', 'int32', 2), cpgm('cpgm_u64_n2_null', 'uint64_t', 'uint64', 2, sentinel=True),
+               cpgm('cpgm_i64_n3', 'int64_t', 'int64', 3, tiers=T, timeout=3000)]
+
+PROPS = {p: dict(level='model_checking', explanation='', outside=[], assumptions=[]) for p in JOBS}
